@@ -64,6 +64,8 @@ class Overlay:
                     d['entry'] = (text, buf_line)
                 elif cur_sec[0] == 'exit':
                     d['exit'] = (text, buf_line)
+                elif cur_sec[0] == 'tail':
+                    d['tail'] = (text, buf_line)
                 elif cur_sec[0] == 'loop':
                     d['loops'][cur_sec[1]] = (text, buf_line)
                 elif cur_sec[0] == 'closure':
@@ -100,7 +102,7 @@ class Overlay:
             elif d == 'ret':
                 self.fns[cur_fn]['ret'] = arg
                 cur_sec = None
-            elif d in ('spec', 'entry', 'params', 'exit'):
+            elif d in ('spec', 'entry', 'params', 'exit', 'tail'):
                 cur_sec = (d,)
             elif d == 'envcall':
                 # `//@ envcall METHOD ENVFN [RECV ...]`: R16, see FnRewriter._emit_range
@@ -380,7 +382,22 @@ class FnRewriter:
             pieces.append(Piece('\n proof { assert(false); }\n', ('gen', 'canary', self.fnkey)))
         self._loop_no = 0
         self._closure_no = 0
-        if 'exit' in self.ov:
+        if 'tail' in self.ov:
+            # R8t: `//@ tail`: ghost statements immediately before the tail expression of the body,
+            # i.e. behind trailing block statements (`if ..{..}`, `match ..{..}`) that carry no `;`
+            # (`//@ exit` lands before those); both may be present
+            points = []
+            if 'exit' in self.ov:
+                points.append((self._exit_point(bo, self.e), 'exit'))
+            points.append((self._tail_point(bo, self.e), 'tail'))
+            at = bo + 1
+            for x, tag in points:
+                self._emit_range(at, x, out, rw, pathmap, in_body=True, overlay_piece=overlay_piece)
+                text, line = self.ov[tag]
+                overlay_piece('\n' + text, line - 1, tag)
+                at = x
+            self._emit_range(at, self.e + 1, out, rw, pathmap, in_body=True, overlay_piece=overlay_piece)
+        elif 'exit' in self.ov:
             # R8x: ghost statements at the fall-through exit of the function:
             # after the last top-level `;` of the body (before a tail expression)
             x = self._exit_point(bo, self.e)
@@ -530,6 +547,60 @@ class FnRewriter:
             if t.kind == 'punct' and t.text == ';':
                 x = j + 1
             j += 1
+        return x
+
+    def _tail_point(self, bo, e):
+        """Token index where the tail expression of the body toks[bo..e] starts: from the exit
+        point, skip block statements (`if C {..} [else ..]`, `match X {..}`, `while/for/loop {..}`,
+        `unsafe {..}`, `{..}`) that are followed by further tokens; a block expression that ends
+        the body is itself the tail. Without a tail expression: the position of the closing brace."""
+        toks = self.sf.toks
+
+        def skip_ws(j):
+            while j < e and toks[j].kind in ('ws', 'comment'):
+                j += 1
+            return j
+
+        def block_end(j):
+            # j at a block keyword or `{`: index right behind the whole block expression, or None
+            t = toks[j]
+            if t.kind == 'punct' and t.text == '{':
+                return match_close(toks, j) + 1
+            if t.kind != 'ident' or t.text not in ('if', 'match', 'while', 'for', 'loop', 'unsafe'):
+                return None
+            k = j + 1
+            while k < e:
+                u = toks[k]
+                if u.kind == 'punct' and u.text == '{':
+                    break
+                if u.kind == 'punct' and u.text in rustlex.OPEN:
+                    k = match_close(toks, k) + 1
+                    continue
+                if u.kind == 'punct' and u.text == ';':
+                    return None
+                k += 1
+            if k >= e:
+                return None
+            end = match_close(toks, k) + 1
+            if t.text == 'if':
+                n = skip_ws(end)
+                if n < e and toks[n].kind == 'ident' and toks[n].text == 'else':
+                    n2 = skip_ws(n + 1)
+                    if n2 < e:
+                        return block_end(n2)
+            return end
+
+        x = skip_ws(self._exit_point(bo, e))
+        while x < e:
+            be = block_end(x)
+            if be is None:
+                return x
+            nxt = skip_ws(be)
+            if nxt >= e:
+                return x        # the block expression is the tail expression
+            if toks[nxt].kind == 'punct' and toks[nxt].text in ('.', '?'):
+                return x        # `match .. {..}.method()` / `{..}?`: part of the tail expression
+            x = nxt
         return x
 
     def _map_paths_text(self, text, pathmap):
